@@ -3,6 +3,7 @@ import Pxv.Lemmas.Rules
 import Pxv.Lemmas.RulesSpec
 import Pxv.Model.Generate
 import Pxv.Thm.C09
+import Pxv.Lemmas.DepGraph
 /-!
 C08 — blueprints that break a documented rule are rejected, never compiled.
 
@@ -835,3 +836,32 @@ example : (Gen.generate (Gen.exBuild 1) .update Gen.exFS).exit = 1 ∧
   ⟨h.1, h.2.2.1⟩
 
 end Pxv.Rules
+
+/-! ### the graph the cycle search runs on (`DependencyGraph::build`) -/
+namespace Pxv.Dep
+
+/-- **C08 (cycles), the graph is complete**: when the loop of `DependencyGraph::build` (mirrored by `build`: worklist with
+    `IndexSet::pop`, error-handler phase, transformer phase, exit when nothing is left to visit AND the last transformer phase
+    added no node) ends by itself, the graph it returns is closed: every compute node has its error handler and its
+    transformers (the `Ok` / `Err` matchers) in the graph, and every explored node the constructors of its inputs — for every
+    component database, root and set of error observers. A dependency cycle that is only reachable through the inputs of an
+    error handler is therefore IN the graph `find_cycles` examines (cycles_complete does the rest). -/
+theorem build_closed (db : DB) (fuel root : Nat) (observers : List Nat) (h : (build db fuel root observers).2 = true) :
+    Closed db (build db fuel root observers).1 :=
+  loopWith_spec fuel _ ⟨(fun c hc => by cases hc), (fun c hc => by cases hc), (fun c hc => by cases hc)⟩ h
+
+/-- the shape of the seeded change C09-5: handler 0 needs `A`, whose constructor is the `Ok` matcher 2 of the fallible
+    callable 1; the `Err` matcher 3 has the error handler 4, which needs `C` (5); 5 needs `D` (6) and 6 needs `C`: a cycle
+    behind the error handler -/
+def exErrCycle : DB := { deps := [(0, [2]), (2, [1]), (4, [5]), (5, [6]), (6, [5])], eh := [(3, 4)], tr := [(1, [2, 3])] }
+
+-- the real loop reaches the cycle 5 ⇄ 6 ...
+example : (build exErrCycle 50 0 []).2 = true ∧ (build exErrCycle 50 0 []).1.nodes = [0, 2, 1, 3, 4, 5, 6] ∧
+    (5, 6) ∈ (build exErrCycle 50 0 []).1.edges ∧ (6, 5) ∈ (build exErrCycle 50 0 []).1.edges := by decide
+-- ... the variant that stops as soon as nothing is left to visit ends right after the matchers were added: the error handler of
+-- the `Err` matcher is never looked up, the graph is not closed and the cycle is not in it
+example : (buildEarly exErrCycle 50 0 []).2 = true ∧ (buildEarly exErrCycle 50 0 []).1.nodes = [0, 2, 1, 3] ∧
+    exErrCycle.ehOf 3 = some 4 ∧ 4 ∉ (buildEarly exErrCycle 50 0 []).1.nodes := by decide
+
+end Pxv.Dep
+
